@@ -47,6 +47,38 @@ CLAIMED = {
             "against RFC 6143 on generated handshakes and compared with the model",
             "server versions below 3.3 excluded (the client raises); causal server after an unanswered challenge; after loseConnection Twisted stops reading (trusted)",
             "Coq proof (case analysis of handshake handlers, induction over the expect loop) + regenerated constants/formats + differential correspondence"),
+    "C02": ("executable Coq model of every decoder (Raw, CopyRect, RRE, CoRRE, Hextile walk, ZRLE tile walk over the inflated stream, "
+            "cursor, desktop-size, last-rect, QEMU key) run against the real client on streams produced by an RFC 6143 encoder written "
+            "independently; the real client's screen must equal the encoder's framebuffer, its commits the updates sent, and a trailing "
+            "Bell must be seen last (exact consumption); theorems so far: Raw step shape, termination/landing of every decoder (C15), "
+            "chunk invariance (C01) - the per-encoding round-trip theorems are PARTIAL (see DESIGN.md)",
+            "zlib is an oracle tape; Pillow modelled; two ZRLE defects are recorded known findings; strict hextile carry-over reading",
+            "Coq model + partial proofs; decided mainly by differential correspondence against an independent RFC 6143 encoder (translation-validation style)"),
+    "C12": ("Coq model of the slice of Pillow the client uses (new/paste with clipping/frombytes raw modes/1-bit mask) and of "
+            "updateRectangle/updateDesktopSize/updateCursor; theorems: nocursor makes cursor updates the identity, exact size after a "
+            "desktop-size change (composition theorem PARTIAL, see DESIGN.md); the real client's screen is compared byte-exactly with the "
+            "reference composition and with the model on random histories",
+            "Pillow trusted and modelled; updates carry exactly w*h pixels",
+            "Coq model + partial proofs + differential correspondence against the reference composition"),
+    "C13": ("Coq theorems: after vncConnectionMade the (format, image mode) pair is an entry of the regenerated PF2IM, native format kept "
+            "iff renderable else exactly one SetPixelFormat(RGB32, or BGR16 for 3.889); SetEncodings payload is preferred + pseudo-encodings "
+            "exactly as the options say and all decodable; for every accepted format and EVERY pixel value the raw-mode decode yields the "
+            "format's channel fields (bit-arithmetic lemmas, not enumeration); real client judged on format blocks x versions x options and "
+            "on all 65536 BGR16 values",
+            "preferred encoding is decodable; Pillow raw unpackers modelled and validated",
+            "Coq proof (Z bit arithmetic, finite table facts by computation) + regenerated PF2IM/encodings + differential correspondence"),
+    "C06": ("Coq theorems: a capture requests the whole desktop as last announced (ServerInit or the latest DesktopSize rectangle, which "
+            "updates the geometry); model of commit/waiter run against the real client on sessions interleaving captures with unsolicited "
+            "updates, desktop-size changes and chunked updates; judged: request geometry, exactly one image per capture, saved right after "
+            "the first commit following the request, PNG pixels == reference canvas / its crop; chunk invariance by C01 "
+            "(save-only-at-commit trace theorem PARTIAL)",
+            "sequential captures; Pillow PNG codec trusted", "Coq proof (partial) + differential correspondence with an independent reference canvas"),
+    "C10": ("Coq theorems about an executable model of build_command_list + shlex: every well-formed command sequence (any alias, any "
+            "arguments) compiles to exactly its operations (induction over the sequence), a script file name is equivalent to its "
+            "tokenised contents, a word that is neither command nor file is rejected whatever follows, unsupported capture extensions are "
+            "rejected; real build_command_list compared on generated scripts/files/near-miss words and build_tool checked to exit before connecting",
+            "ASCII; float() validity and int() modelled; delay pauses compared exactly by the harness",
+            "Coq proof (induction over command lists, controlled evaluation of the word tests) + differential correspondence"),
 }
 NOT_YET = "check not built yet in this session (planned Coq model in DESIGN.md §3); not claimed"
 
